@@ -118,6 +118,16 @@ func init() {
 			}
 			sc.Clients = append(sc.Clients, ops)
 		}
+		if r.Chance(0.4) {
+			// a ledger that joins the bucket while the pipelines run (their stores were opened before it existed,
+			// possibly while their ledger was alone in the bucket), and is written to: none of its logs may
+			// reach an exporter, no pipeline exports it
+			late := []Op{{ID: "cl.0", Kind: KSleep, SleepMs: Pick(r, []int{1, 30, 800})}, {ID: "cl.1", Kind: KCreateLedger, Ledger: "l9"}}
+			for i := 0; i < 1+r.Intn(3); i++ {
+				late = append(late, Op{ID: fmt.Sprintf("cl.%d", i+2), Kind: KPostings, Ledger: "l9", Postings: []PostingSpec{{"world", "late", "7", "EUR"}}})
+			}
+			sc.Clients = append(sc.Clients, late)
+		}
 		ex := &ExploreCfg{Seed: seed, PreemptP: 0.3, DelayP: 0.05, FaultP: 0, MaxFaults: 0}
 		if r.Chance(0.65) {
 			// swarm: each run enables its own subset of fault kinds. A crash is admitted at almost every
@@ -156,10 +166,45 @@ func (r *runner) logIDs(ledgerName string) []uint64 {
 	return ids
 }
 
+// checkOwn (C33, and C19's pipeline profile): whatever a pipeline of ledger L hands to the exporter -
+// acknowledged or not - is a committed log of L: same id, same content. A pipeline keeps the store it opened
+// when it started; that store must keep reading its own ledger when the bucket later gets siblings.
+func (ww *workerWorld) checkOwn(r *runner) []Violation {
+	var vs []Violation
+	prop := r.sc.Property
+	ww.mu.Lock()
+	accepts := append([]AcceptRec(nil), ww.accepts[ww.lastOwnSeen:]...)
+	ww.lastOwnSeen = len(ww.accepts)
+	ww.mu.Unlock()
+	for _, a := range accepts {
+		// whatever a pipeline of ledger L hands to the exporter - acknowledged or not - is a committed log of L:
+		// same id, same content (a pipeline's store keeps reading its own ledger when the bucket gets siblings)
+		for pos, id := range a.IDs {
+			if pos >= len(a.Prints) {
+				break
+			}
+			row, _ := r.state[rowKey{"log", a.Ledger, idKey(id)}].(*LogRow)
+			if row == nil {
+				vs = append(vs, Violation{prop, "delivered-logs-are-the-ledgers-own", fmt.Sprintf("exporter %s received log %d for ledger %s, which has no committed log with that id", a.Exporter, id, a.Ledger)})
+				break
+			}
+			own, err := (&SimStore{}).logFromRow(row)
+			if err != nil {
+				continue
+			}
+			if logPrint(own) != a.Prints[pos] {
+				vs = append(vs, Violation{prop, "delivered-logs-are-the-ledgers-own", fmt.Sprintf("exporter %s received for ledger %s a log %d that is not that ledger's log %d: got %.200s, the ledger has %.200s", a.Exporter, a.Ledger, id, id, a.Prints[pos], logPrint(own))})
+				break
+			}
+		}
+	}
+	return vs
+}
+
 // checkStep is called after every scheduler step: safety clauses over the new Accept calls and the new
 // commits of pipeline rows.
 func (ww *workerWorld) checkStep(r *runner, recs []CommitRec) []Violation {
-	var vs []Violation
+	vs := ww.checkOwn(r)
 	prop := r.sc.Property
 	ww.mu.Lock()
 	accepts := append([]AcceptRec(nil), ww.accepts...)
